@@ -42,6 +42,7 @@ func runC19(a *Args) error {
 		"oras-go v2.5.0 oci.Store / graph.Memory / content.FetchAll / PackManifest behave as modelled from their source (C19_Model.v header); every history checks it against the real store",
 		"error classes are recognised by errors.Is / errors.As and by the fixed message prefixes of registry/repository.go",
 		"no deletion and no concurrent writer during a history",
+		"frame check on every call of every history: the annotations map, envelope bytes and subject descriptor handed to PushSignature and the descriptors handed to ListSignatures / FetchSignatureBlob (with their Annotations maps, URLs, Platform) are deep-snapshotted before and compared after the call; in every second history the same map / descriptor objects are handed to consecutive calls; the descriptors and bytes the library hands out are scribbled over by the caller after each listing / fetch",
 		"extra Go-side check, outside registry/repository.go: the layout is re-opened with registry.NewOCIRepository and every listing compared with the live one; oras-go's oci.New refuses to re-open a layout in which a stored manifest is referenced (as a subject) with another size, or a manifest-typed reference carries an invalid digest string (histogram reopen: layout-not-reopenable): counted and reported, not judged a violation of C19",
 	}
 	n := 1200
@@ -92,7 +93,12 @@ func runC19(a *Args) error {
 			w.Count("content_kinds", t)
 		}
 		for _, v := range o.viol {
-			w.ImplViolation(o.id, v, o.desc, strings.SplitN(v, ":", 2)[0])
+			parts := strings.SplitN(v, ": ", 2)
+			what := v
+			if len(parts) == 2 && parts[0] == "frame" {
+				what = parts[1]
+			}
+			w.ImplViolation(o.id, what, o.desc, parts[0])
 		}
 	}
 	return w.Close()
